@@ -237,7 +237,8 @@ HEADER = "from harness.worlds.rt2 import E, C, R, IT, U, O, CM, F, B, SEEN, A, L
 
 def render(prog, twin=False):
     """Python source of a module defining the program's function (module-level or built by a factory)."""
-    params = ", ".join(prog["params"])
+    defaults = prog.get("defaults") or {}
+    params = ", ".join(n + (f"={p_expr(defaults[n], False)}" if n in defaults else "") for n in prog["params"])
     ind = "    " if prog["closure"] else ""
     lines = []
     if prog["closure"]:
